@@ -90,6 +90,11 @@ from . import elem_family  # noqa: E402
 CHECKS['C20'] = {'run': elem_family.run_c20, 'signatures': {}, 'search': None}
 
 
+from . import ser_family  # noqa: E402
+
+CHECKS['C14'] = {'run': ser_family.run_c14, 'signatures': ser_family.SIGNATURES, 'search': None}
+
+
 def run_check(pid, tier, seed):
     chk = CHECKS[pid]
     return core.decide(pid, tier, seed, chk['run'], signatures=chk.get('signatures'),
@@ -118,4 +123,4 @@ def replay(payload):
     return handler(pid, fl)
 
 
-REPLAYERS = {'elements': elem_family.replay, 'classify': class_family.replay, 'classify-bytes': class_family.replay, 'access': access_family.replay, 'collection': coll_family.replay, 'collection-perm': coll_family.replay, 'validate': coll_family.replay}
+REPLAYERS = {'roundtrip': ser_family.replay, 'elements': elem_family.replay, 'classify': class_family.replay, 'classify-bytes': class_family.replay, 'access': access_family.replay, 'collection': coll_family.replay, 'collection-perm': coll_family.replay, 'validate': coll_family.replay}
